@@ -112,6 +112,9 @@ def judge_case(ctx, res, pid="C08"):
             ctx.fail_harness("observe_all failed: %s" % ev["exc"]["type"])
             return
         obs = ev["ret"]
+        from ..framework import held_handles
+        if held_handles(ctx, obs, fam, schema, wit):
+            return
         tobs = None
         if ordered and k + 1 < len(evs) and ops[k + 1]["op"] == "table_observe":
             if "exc" in evs[k + 1]:
@@ -502,7 +505,91 @@ def judge_subtree(ctx, res):
                           f"{schema}: {len(stale)} stored membership rows still name crates removed with the subtree", wit)
 
 
+def shared_case(cid, rng, schema, n_ops=24):
+    """One on-disk library opened twice in the same process: membership and crate operations go through either database
+    object; after every step both must describe the same crates, memberships and (on 1.x) converse relation."""
+    d = "@W/" + cid
+    ops = [{"op": "create", "schema": schema, "dir": d}]
+    for t in range(4):
+        ops.append({"op": "create_track", "as": "t%d" % t, "snap": {"relative_path": FO.hx("sh/%d.mp3" % t)}, "bind": "tid%d" % t})
+    ops.append({"op": "create_root_crate", "name": FO.hx("A"), "as": "c0", "bind": "cid0"})
+    ops.append({"op": "create_root_crate", "name": FO.hx("B"), "as": "c1", "bind": "cid1"})
+    ops.append({"op": "create_sub_crate", "c": "c0", "name": FO.hx("C"), "as": "c2", "bind": "cid2"})
+    ops.append({"op": "load", "dir": d, "lib": 1})
+    for t in range(4):
+        ops.append({"op": "track_by_id", "id": "$tid%d" % t, "as": "t%d" % t, "lib": 1})
+    for c in range(3):
+        ops.append({"op": "crate_by_id", "id": "$cid%d" % c, "as": "c%d" % c, "lib": 1})
+    obs = {"op": "observe_all", "snapshots": False}
+    obs_b = {"op": "observe_all_b", "snapshots": False}
+    ops += [dict(obs), dict(obs_b)]
+    steps = []
+    for k in range(n_ops):
+        r = rng.random()
+        c, t = "c%d" % rng.randrange(3), "t%d" % rng.randrange(4)
+        if r < 0.5:
+            op = {"op": "add_track", "c": c, "t": t}
+        elif r < 0.8:
+            op = {"op": "remove_track_from", "c": c, "t": t}
+        elif r < 0.9:
+            op = {"op": "clear_tracks", "c": c}
+        else:
+            op = {"op": "set_name", "c": c, "name": FO.hx("N%d" % k)}
+        if rng.random() < 0.5:
+            op["lib"] = 1
+        steps.append(len(ops))
+        ops += [op, dict(obs), dict(obs_b)]
+    return {"id": cid, "schema": schema, "ops": ops, "_scale": True, "_shared": steps}
+
+
+def judge_shared(ctx, res):
+    case = res.case
+    schema = case["schema"]
+    fam = family(schema)
+    ops = case["ops"]
+    ctx.bump("shared_directory_cases")
+    wit = {"schema": schema, "ops": [o for o in ops if not o["op"].startswith("observe_all")]}
+    if res.crash:
+        c = res.crash
+        ctx.violation(f"op-did-not-complete {fam} {c.get('op')} shared-directory {c['kind']}",
+                      f"{schema}: {c.get('op')} did not complete with the library opened twice: {c['kind']}", dict(wit, crash=c["kind"]))
+        return
+    evs = res.events
+    first = case["_shared"][0]
+    if any("exc" in e for e in evs[:first]):
+        ctx.fail_harness("shared-directory set-up failed: %s" % [e["exc"]["type"] for e in evs[:first] if "exc" in e][:1])
+        return
+    from .c10 import diff_paths, generic_site
+    from ..framework import held_handles
+    for k in case["_shared"]:
+        if k + 2 >= len(evs):
+            break
+        op, a, b = ops[k], evs[k + 1], evs[k + 2]
+        ctx.count()
+        if "exc" in a or "exc" in b:
+            ctx.fail_harness("observation failed in a shared-directory case")
+            return
+        ctx.bump_in("shared_directory_ops_through", "second database object" if op.get("lib") else "first database object")
+        if held_handles(ctx, a["ret"], fam, schema, wit, " (library opened twice)") or held_handles(ctx, b["ret"], fam, schema, wit, " (library opened twice)"):
+            return
+        def strip(o):
+            # name-probing lookups depend on the names each slot has seen, not on the library
+            return {i: {k: v for k, v in x.items() if k != "sub_crate_by_name"} for i, x in (o or {}).items()} if isinstance(o, dict) else o
+        for part in ("crates", "tracks"):
+            pa, pb = a["ret"].get(part), b["ret"].get(part)
+            if part == "crates":
+                pa, pb = strip(pa), strip(pb)
+            if pa != pb:
+                where = diff_paths(pa, pb)
+                ctx.violation(f"database-objects-disagree {fam} {op['op']} {part} {generic_site(where[0]) if where else ''}",
+                              f"{schema}: after {op['op']} through the {'second' if op.get('lib') else 'first'} of two database objects opened on "
+                              f"one directory, the two disagree about {part} at {where[:3]}", wit)
+                return
+
+
 def judge_scale(ctx, res):
+    if res.case.get("_shared") is not None:
+        return judge_shared(ctx, res)
     if res.case.get("_subtree"):
         return judge_subtree(ctx, res)
     case = res.case
@@ -568,6 +655,9 @@ def run(ctx):
         n += 1
         if is_v2(schema):
             cases.append(scale_case("sh%d" % n, ctx.rng, schema, 40, huge_ids=True))
+            n += 1
+        for _ in range(2 if ctx.tier == "quick" else 30):
+            cases.append(shared_case("shr%d" % n, ctx.rng, schema))
             n += 1
         cases.append(subtree_case("st%d" % n, ctx.rng, schema, 620 if ctx.tier == "quick" else ctx.rng.choice([1100, 1700, 2300])))
         n += 1
